@@ -15,7 +15,11 @@ import (
 // the same engine, nothing is logged after the fault became visible (at most the one native call that was the
 // instruction in flight), the API returns the documented error type, the VM registers are idle afterwards.
 
-const maxStackSweep = 9
+const (
+	maxStackSweep = 9
+	// programs longer than this are not swept (the sweep is quadratic); another candidate is taken
+	maxFaultSteps = 1500
+)
 
 type faultStats struct {
 	positions, interrupted, tooLate, overflowed, liveTry, liveIter, liveBoth int64
@@ -29,6 +33,10 @@ func faultSweep(c *core.Ctx, in *instance) *core.Result {
 		return nil // the fault-free run is judged by the other monitors
 	}
 	steps := base.Steps1 - base.Steps0
+	if steps > maxFaultSteps {
+		st.Inc("fault:skipped_program_too_long")
+		return nil
+	}
 	fail := func(mon, fault, detail string, got []string) *core.Result {
 		rec := in.rec(base.Log, got)
 		rec.Fault = fault
@@ -171,11 +179,16 @@ func faultPart(c *core.Ctx, cands []*instance) *core.Result {
 	if len(rich) > 0 {
 		cands = rich
 	}
-	for i := 0; i < n; i++ {
+	done := 0
+	for try := 0; try < 4*n && done < n; try++ {
 		in := cands[c.Rng.Intn(len(cands))]
+		before := c.Stats.Counters["fault:programs_swept"]
 		if r := faultSweep(c, in); r != nil {
 			res := finishViolation(c, in, r)
 			return &res
+		}
+		if c.Stats.Counters["fault:programs_swept"] > before {
+			done++
 		}
 	}
 	return nil
